@@ -11,7 +11,7 @@ ATTR = {
     "C09": {"mon": ("C09_", "C08_OnCloseOncePerConnection"), "inv": ("Missing_onclose", "Extra_onclose")},
     "C10": {"mon": ("C10_", "C08_SocketClosedOnlyAfterHandlersReturned"), "inv": ("Extra_hstart", "Extra_hend", "Missing_hunbind", "Extra_hunbind", "Missing_eof")},
     "C11": {"mon": ("C11_",), "inv": ("Missing_stopret", "Missing_runret", "Extra_runret", "Late_stopret", "Late_runret")},
-    "C12": {"mon": ("C12_",), "inv": ("Missing_stopret",)},
+    "C12": {"mon": ("C12_", "C08_NothingLeaks"), "inv": ("Missing_stopret",)},
     "C13": {"mon": ("C13_", "C08_SocketClosedOnlyAfterHandlersReturned"), "inv": ("EveryWriteArrives", "Missing_hstart", "Missing_hend", "Late_hstart", "Late_hend", "Extra_hstart")},
     "C18": {"mon": ("C18_", "C07_"), "inv": ("Extra_hstart", "Extra_hend", "Extra_hunbind", "Missing_hstart", "Missing_hend", "Missing_eof", "Late_eof", "Late_hstart")},
     "C17": {"mon": ("C17_",), "inv": ("Missing_ready", "Extra_ready", "Extra_runret")},
@@ -23,7 +23,8 @@ FAMILIES = {
     # one connection, pipelines of up to 4 frames, sent frame by frame and in one segment
     "pipeline": dict(consts={"Conns": '{"c1"}', "MaxReq": "4", "FrameKinds": '{"op", "unbind"}'}, depth=7,
                      cfgs=[{"unbind_route": "1", "coalesce": "1"}, {"unbind_route": "0", "coalesce": "1"}, {"unbind_route": "1"},
-                           {"unbind_route": "0", "coalesce": "1", "procs": "1"}, {"unbind_route": "1", "coalesce": "1", "procs": "1"}],
+                           {"unbind_route": "0", "coalesce": "1", "procs": "1"}, {"unbind_route": "1", "coalesce": "1", "procs": "1"},
+                           {"unbind_route": "1", "coalesce": "1", "unbind_same_id": "1"}, {"unbind_route": "0", "unbind_same_id": "1"}],
                      must=lambda b: sum(1 for e in b if e["a"] == "send") >= 2),
     # Stop against idle / half-a-frame / not-reading / busy connections
     "stop": dict(consts={"Conns": '{"c1", "c2"}', "MaxReq": "2", "FrameKinds": '{"op", "partial", "unbind"}', "AllowStopReading": "TRUE"}, depth=6,
@@ -44,6 +45,8 @@ FAMILIES = {
     "tls-close": dict(consts={"Conns": '{"c1", "c2"}', "MaxReq": "1", "FrameKinds": '{"op"}', "TLSMode": '"server"'}, depth=5,
                       cfgs=[{"unbind_route": "0", "tls": "tls", "reset": "1"}, {"unbind_route": "0", "tls": "tls"}],
                       must=lambda b: any(e["a"] == "close" for e in b) and all(e["k"] in ("valid", "nocert") for e in b if e["a"] == "dial")),
+    "tls-anycert": dict(consts={"Conns": '{"c1", "c2"}', "MaxReq": "1", "FrameKinds": '{"op"}', "TLSMode": '"anycert"'}, depth=4,
+                        cfgs=[{"unbind_route": "0", "tls": "anycert"}], must=lambda b: any(e["a"] == "send" for e in b)),
     # handler panics (recovered) on per-request goroutines and inline (StartTLS, unbind route), with a bystander connection
     "panic": dict(consts={"Conns": '{"c1", "c2"}', "MaxReq": "2", "FrameKinds": '{"op", "unbind", "starttls"}'}, depth=6, panic=True,
                   cfgs=[{"unbind_route": "1"}], must=lambda b: any(e["a"] == "panic" or e["s"] == "panic" for e in b)),
@@ -253,6 +256,16 @@ def scripted_family(run, fam, quick):
         tl = [[R, D("c1", "silent"), T("c1")], [R, D("c1", "valid"), S("c1", "op"), T("c1")], [R, D("c1", "valid"), T("c1"), stop1]]
         out += [(b, {"unbind_route": "0", "read_timeout_ms": ms, "tls": "tls"}) for b in scen.scripted(run, tl, dict(base, TLSMode='"server"'))]
         return out
+    elif fam == "blocked-writer":
+        # handlers blocked inside Write (16 MB to a client that does not read) delay neither later requests of that
+        # connection nor other connections
+        R, D = {"a": "run"}, lambda c: {"a": "dial", "c": c}
+        S = lambda c, k, hold=False: {"a": "send", "c": c, "k": k, "hold": hold}
+        nr = lambda c: {"a": "stopreading", "c": c}
+        consts = {"Conns": '{"c1", "c2"}', "MaxReq": "6", "FrameKinds": '{"op"}', "AllowStopReading": "TRUE"}
+        scripts = [[R, D("c1"), nr("c1"), S("c1", "op"), S("c1", "op"), S("c1", "op"), S("c1", "op"), S("c1", "op")],
+                   [R, D("c1"), D("c2"), nr("c1"), S("c1", "op"), S("c1", "op"), S("c2", "op"), S("c1", "op"), S("c2", "op"), S("c1", "op")]]
+        return [(b, {"unbind_route": "0", "wait_write_blocked": "1"}) for b in scen.scripted(run, scripts, consts)] * 2
     elif fam == "stop-storm":
         # clients connecting at the very moment Stop is called: Stop and Run return all the same
         R, D = {"a": "run"}, lambda c: {"a": "dial", "c": c}
@@ -387,7 +400,7 @@ def scripted_family(run, fam, quick):
     return [(b, dict(cfgs[n % len(cfgs)])) for n, b in enumerate(behs)]
 
 
-SCRIPTED = {"deep", "manyconns", "ready", "stopstates", "starttls2", "starttls-inflight", "starttls-close", "timeout", "starttls-adversarial", "outliving", "idle", "tls-stall", "stop-storm"}
+SCRIPTED = {"deep", "manyconns", "ready", "stopstates", "starttls2", "starttls-inflight", "starttls-close", "timeout", "starttls-adversarial", "outliving", "idle", "tls-stall", "stop-storm", "blocked-writer"}
 
 
 def run_families(run, names, cap):
